@@ -50,6 +50,10 @@ def run(ctx, rep):
     rep.guarded("R06-ZIP", lambda: r_zip(sh, rep))
     rep.guarded("R06-OPAQUE", lambda: r_opaque(sh, rep))
     rep.guarded("R06-CASTDIR", lambda: r_castdir(sh, rep))
+    rep.rule("R06-SCOPE", "type-variable and value scopes: close_scope assigns back exactly what open_new_scope saved (no merging)", floor=3)
+    rep.guarded("R06-SCOPE", lambda: r_scope(sh, rep))
+    rep.rule("R06-UPCAST", "every way the code generator lowers a call wraps a non-Data argument passed to a Data parameter in cast_to_data (the checker accepts that implicit upcast everywhere)", floor=4)
+    rep.guarded("R06-UPCAST", lambda: r_upcast(sh, rep))
 
 
 def builtin_chains(fn_body):
@@ -247,3 +251,75 @@ def r_castdir(sh, rep):
                     only_given = (flag_ids & giv_ids) - exp_ids
                     rep.check(not only_given, "R06-CASTDIR", "%s#unify#%d" % (q, n), sh.loc(rel, c), "%s allows the implicit Data cast depending on `%s`, which belongs to the *given* type (%s), not the expected one: the checker then accepts a Data value where a concrete type is expected, but the code generator only inserts casts towards Data — the callee receives raw Data and fails with a structural type mismatch" % (q, sorted(only_given), sh.nsrc(rel, c["args"][1])[:60]), sample={"flag": sh.nsrc(rel, flag)[:80]})
     return n
+
+
+# ---------------------------------------------------------------------------------------------------------
+# R06-SCOPE: save / restore pairing of the checker's scopes
+# ---------------------------------------------------------------------------------------------------------
+HYD = "crates/aiken-lang/src/tipo/hydrator.rs"
+
+
+def r_scope(sh, rep):
+    """A type-variable name introduced by an annotation is rigid inside its scope and unknown outside. open_new_scope saves
+    the name table and the rigid table; close_scope must put both back as they were. If one of them is merged instead of
+    restored, a name from a closed scope stays resolvable while its rigidity is gone: a later annotation reusing the name
+    denotes a variable that unifies with anything, and `fn(y: t) { y + 1 }` is accepted as polymorphic."""
+    n = 0
+    for rel, ty in ((HYD, "Hydrator"), ("crates/aiken-lang/src/tipo/environment.rs", "Environment")):
+        fj = sh.file(rel)
+        op, cl = find_method(fj, ty, "open_new_scope"), find_method(fj, ty, "close_scope")
+        rep.touched(rel, ty + "::open_new_scope")
+        rep.touched(rel, ty + "::close_scope")
+        saved = find_struct(fj, "ScopeResetData")
+        lit = [x for x in walk(op["body"]) if x.get("k") == "Struct" and last(x["p"]) == "ScopeResetData"]
+        if not lit:
+            raise AnchorMissing("ScopeResetData literal in %s::open_new_scope" % ty)
+        locals_ = {x["pat"]["name"]: x["init"] for x in walk(op["body"]) if x.get("k") == "Local" and x["pat"].get("k") == "Ident" and x.get("init") is not None}
+        dpar = [i["pat"].get("name") for i in cl["sig"]["inputs"] if isinstance(i.get("pat"), dict) and i["pat"].get("name") not in (None, "self")]
+        dname = dpar[0] if dpar else "data"
+        for fld in saved["fields"]:
+            init = [fi["e"] for fi in lit[0]["fields"] if fi["name"] == fld["name"]]
+            src = init[0] if init else None
+            if src is not None and src.get("k") == "Path" and src["p"] in locals_:
+                src = locals_[src["p"]]
+            origin = None
+            if src is not None:
+                mm = re.match(r"^self\.(\w+)\.clone\(\)$", sh.nsrc(rel, src))
+                origin = mm.group(1) if mm else None
+            back = [a for a in walk(cl["body"]) if a.get("k") == "Assign" and sh.nsrc(rel, a["l"]) == "self.%s" % origin and sh.nsrc(rel, a["r"]) == "%s.%s" % (dname, fld["name"])]
+            n += 1
+            rep.check(origin is not None and len(back) == 1, "R06-SCOPE", "%s#%s#restored-by-assignment" % (ty, fld["name"]), sh.loc(rel, cl), "%s::open_new_scope saves `self.%s` as ScopeResetData.%s but close_scope does not assign it back (`self.%s = %s.%s` not found): entries created inside the scope survive it" % (ty, origin, fld["name"], origin, dname, fld["name"]), sample={"saved_from": origin})
+    if n < 3:
+        rep.bad("R06-SCOPE", "sites", "", "only %d saved fields found (anchor: 2 in Hydrator, 1 in Environment)" % n)
+
+
+# ---------------------------------------------------------------------------------------------------------
+# R06-UPCAST: sibling agreement of the call lowerings
+# ---------------------------------------------------------------------------------------------------------
+GENU = "crates/aiken-lang/src/gen_uplc.rs"
+
+
+def r_upcast(sh, rep):
+    """The checker lets any value be passed where Data is expected. The generated code represents Int, ByteArray, lists …
+    differently from Data, so each lowering of a call must wrap such an argument in cast_to_data. CodeGenerator::build has
+    several Call arms (constructor, module function, builtin, any other callee); they are siblings: each place that builds
+    the argument list from `arg.value` must contain the is_data()-guarded cast_to_data."""
+    f = [fn for q, fn in all_fns(sh.file(GENU)) if q.endswith("CodeGenerator::build")]
+    if not f:
+        raise AnchorMissing("CodeGenerator::build")
+    rep.touched(GENU, "CodeGenerator::build")
+    en = find_enum(sh.file("crates/aiken-lang/src/expr.rs"), "TypedExpr")
+    m = find_enum_match(f[0], "TypedExpr", {v["name"] for v in en["variants"]}, min_hits=3)
+    arms = [arm for v, arm, alt in arm_table(m) if v == "Call"] if m else []
+    if not arms:
+        raise AnchorMissing("TypedExpr::Call arm of CodeGenerator::build")
+    sites = []
+    for c in walk(arms[0]["body"]):
+        if c.get("k") == "Closure":
+            src = sh.nsrc(GENU, c["body"])
+            if re.search(r"self\.build\(&\w+\.value", src) and not any(x is not c and x.get("k") == "Closure" and re.search(r"self\.build\(&\w+\.value", sh.nsrc(GENU, x["body"])) for x in walk(c["body"])):
+                sites.append((c, src))
+    for i, (c, src) in enumerate(sites):
+        rep.check("cast_to_data(" in src and "is_data()" in src, "R06-UPCAST", "build#Call#argument-list#%d" % i, sh.loc(GENU, c), "this lowering of a call builds its arguments without the is_data()-guarded AirTree::cast_to_data its %d sibling(s) have: a function value with a Data parameter then receives a raw Int / ByteArray / list and the builtin it applies fails with a structural type mismatch" % (len(sites) - 1), sample={"siblings": len(sites)})
+    if len(sites) < 4:
+        rep.bad("R06-UPCAST", "build#Call#sites", sh.loc(GENU, arms[0]), "only %d argument-list sites found in the Call arm, 4 confirmed by hand (anchor)" % len(sites))
